@@ -1,5 +1,338 @@
 import Ecal.Drivers.Util
+import Ecal.Model.Expr
+import Ecal.Gen.C03
+/-!
+Driver of C03. Payload (space separated), see `go/cmd/harness/c03.go`:
+  `<src-hex> <conv> <tok;tok;…> <ftext|-> <regex|->`
+  tok   = `<NAME>:<val-hex>:<line>[:<bits-hex>]`
+  conv  = `int64(NaN),int64(+huge),int64(-huge)` of the platform
+  ftext = `<bits-hex>:<text-hex>,…` (fmt.Sprint of floats)   regex = `<subj-hex>:<pat-hex>:<T|F|X>,…`
+Result: `<tree> <outcome>` — the tree `Impl.parse` builds with the generated table and what
+`Impl.eval` computes (numbers: `Float`, compared by bit pattern).
+-/
 namespace Ecal.Drv.C03
-/-- model driver of property C03 (stub: not implemented yet) -/
-def run (_args : List String) : IO Unit := Ecal.Drv.lineLoop fun _ => "unimplemented"
+open Ecal.Drv Ecal.Expr
+
+def hexNat (s : String) : Option Nat :=
+  s.toList.foldlM (fun acc c => (hexVal c).map (acc * 16 + ·)) 0
+
+def binOpOfName : String → Option BinOp
+  | "GEQ" => some .geq | "LEQ" => some .leq | "NEQ" => some .neq | "EQ" => some .eq
+  | "GT" => some .gt | "LT" => some .lt
+  | "PLUS" => some .plus | "MINUS" => some .minus | "TIMES" => some .times | "DIV" => some .div
+  | "DIVINT" => some .divint | "MODINT" => some .modint
+  | "AND" => some .and | "OR" => some .or
+  | "LIKE" => some .like | "IN" => some .isin | "HASPREFIX" => some .hasprefix
+  | "HASSUFFIX" => some .hassuffix | "NOTIN" => some .notin | "ASSIGN" => some .assign
+  | _ => none
+
+def parseTok (s : String) : Option LTok :=
+  match s.splitOn ":" with
+  | name :: val :: line :: rest => do
+    let v ← hexDecode val
+    let ln ← line.toNat?
+    let tk : TK ←
+      match name, rest with
+      | "NUMBER", [bits] => (hexNat bits).map fun b => TK.atom (.num v b)
+      | "NUMBER", _ => none
+      | "STRING", _ => some (.atom (.str v))
+      | "IDENTIFIER", _ => some (.atom (.ident v))
+      | "TRUE", _ => some (.atom (.tru v))
+      | "FALSE", _ => some (.atom (.fls v))
+      | "NULL", _ => some (.atom (.null v))
+      | "LPAREN", _ => some .lp
+      | "RPAREN", _ => some .rp
+      | "LBRACK", _ => some .lb
+      | "RBRACK", _ => some .rb
+      | "COMMA", _ => some .comma
+      | "EOF", _ => some .eof
+      | "NOT", _ => some (.not v)
+      | n, _ => some (match binOpOfName n with
+                      | some o => .op o v
+                      | none => .other (strBytes n))
+    some ⟨tk, ln⟩
+  | _ => none
+
+/-! ### the `Float` instance of the numeric carrier -/
+
+structure Tables where
+  convNaN : Int
+  convPos : Int
+  convNeg : Int
+  ftext : List (Nat × Str)
+  regex : List (Str × Str × Option Bool)
+
+def isNaN (x : Float) : Bool := x.isNaN
+
+/-- bit pattern with all NaNs identified -/
+def fbits (x : Float) : Nat := if x.isNaN then 0x7ff8000000000000 else x.toBits.toNat
+
+def missingText : Str := [63, 77, 73, 83, 83]  -- "?MISS"
+
+def toInt64 (tb : Tables) (x : Float) : Int :=
+  if x.isNaN then tb.convNaN
+  else if x ≥ 9223372036854775808.0 then tb.convPos
+  else if x < -9223372036854775808.0 then tb.convNeg
+  else x.toInt64.toInt
+
+def floatNum (tb : Tables) : Num Float where
+  ofBits := fun b => Float.ofBits b.toUInt64
+  add := (· + ·)
+  sub := (· - ·)
+  mul := (· * ·)
+  div := (· / ·)
+  neg := Float.neg
+  floor := Float.floor
+  lt := fun a b => a < b
+  le := fun a b => a ≤ b
+  eq := fun a b => a == b
+  toInt := toInt64 tb
+  ofInt := fun i => (Int64.ofInt i).toFloat
+  text := fun x => match tb.ftext.find? (·.1 = fbits x) with
+    | some (_, t) => t
+    | none => missingText
+
+/-- the fixed environment (the same values are set in `c03Scope`) -/
+def envVar : Str → Val Float := fun n =>
+  if n = strBytes "a" then .num 1.0
+  else if n = strBytes "b" then .str (strBytes "x")
+  else if n = strBytes "c" then .bool true
+  else if n = strBytes "d" then .null
+  else if n = strBytes "l" then .list (.cons (.num 1.0) (.cons (.str (strBytes "x")) .nil))
+  else if n = strBytes "n" then .num (-2.5)
+  else if n = strBytes "s" then .str (strBytes "10")
+  else if n = strBytes "f" then .bool false
+  else if n = strBytes "m" then
+    .list (.cons (.list (.cons (.num 1.0) .nil)) (.cons .null (.cons (.bool true) .nil)))
+  else .null
+
+def cfg (tb : Tables) : Cfg Float where
+  C := floatNum tb
+  re := fun s p => match tb.regex.find? (fun e => e.1 = s ∧ e.2.1 = p) with
+    | some (_, _, r) => r
+    | none => none
+  var := envVar
+
+/-! ### printing -/
+
+def binName : BinOp → String
+  | .geq => "geq" | .leq => "leq" | .neq => "neq" | .eq => "eq" | .gt => "gt" | .lt => "lt"
+  | .plus => "plus" | .minus => "minus" | .times => "times" | .div => "div"
+  | .divint => "divint" | .modint => "modint" | .and => "and" | .or => "or"
+  | .like => "like" | .isin => "in" | .hasprefix => "hasprefix" | .hassuffix => "hassuffix"
+  | .notin => "notin" | .assign => "assign"
+
+def preName : PreOp → String
+  | .neg => "minus" | .pos => "plus" | .not => "not"
+
+def atomName : Atom → String
+  | .num .. => "num" | .str _ => "str" | .ident _ => "ident"
+  | .tru _ => "true" | .fls _ => "false" | .null _ => "null"
+
+mutual
+def showTree : Expr → String
+  | .atom a => atomName a
+  | .list .nil => "list"
+  | .list its => "(list" ++ showItems its ++ ")"
+  | .bin o _ l r => "(" ++ binName o ++ "," ++ showTree l ++ "," ++ showTree r ++ ")"
+  | .pre p _ x => "(" ++ preName p ++ "," ++ showTree x ++ ")"
+def showItems : Items → String
+  | .nil => ""
+  | .cons e rest => "," ++ showTree e ++ showItems rest
+end
+
+def hex16 (n : Nat) : String :=
+  let s := hexEncode ((List.range 8).reverse.map fun i => (n / 256 ^ i) % 256)
+  s
+
+mutual
+def showVal : Val Float → String
+  | .null => "n"
+  | .bool true => "t"
+  | .bool false => "f"
+  | .num x => if x.isNaN then "Nnan" else "N" ++ hex16 x.toBits.toNat
+  | .str s => "S" ++ hexEnc s
+  | .list vs => "L(" ++ showVals vs ++ ")"
+def showVals : Vals Float → String
+  | .nil => ""
+  | .cons v .nil => showVal v
+  | .cons v rest => showVal v ++ "," ++ showVals rest
+end
+
+def errName : ErrKind → String
+  | .notANumber => "NotANumber" | .notABoolean => "NotABoolean" | .notAList => "NotAList"
+  | .runtime => "RuntimeError"
+
+def showOut : Out Float → String
+  | .val v => "V " ++ showVal v
+  | .err .runtime _ => "E RuntimeError -"
+  | .err k n => "E " ++ errName k ++ " " ++ hexEnc n
+
+/-! ### coverage of the oracle tables: every float the model prints and every pair it
+    matches must have an entry (otherwise the case is reported, never guessed) -/
+
+mutual
+def valFloats : Val Float → List Float
+  | .num x => [x]
+  | .list vs => valsFloats vs
+  | _ => []
+def valsFloats : Vals Float → List Float
+  | .nil => []
+  | .cons v rest => valFloats v ++ valsFloats rest
+end
+
+mutual
+/-- sub-expressions (the tree itself included) -/
+def subs : Expr → List Expr
+  | .atom a => [.atom a]
+  | .list its => .list its :: subsItems its
+  | .bin o t l r => .bin o t l r :: (subs l ++ subs r)
+  | .pre p t x => .pre p t x :: subs x
+def subsItems : Items → List Expr
+  | .nil => []
+  | .cons e rest => subs e ++ subsItems rest
+end
+
+mutual
+/-- assignment anywhere but at the root, or the left side not a plain identifier: outside the fragment -/
+def hasAssign : Expr → Bool
+  | .atom _ => false
+  | .list its => hasAssignItems its
+  | .bin .assign _ _ _ => true
+  | .bin _ _ l r => hasAssign l || hasAssign r
+  | .pre _ _ x => hasAssign x
+def hasAssignItems : Items → Bool
+  | .nil => false
+  | .cons e rest => hasAssign e || hasAssignItems rest
+end
+
+def missing (tb : Tables) (G : Cfg Float) (e : Expr) : Option String :=
+  let ss := subs e
+  -- floats that are printed: operands of the text operators and of comparisons that are not
+  -- between two numbers
+  let floats := ss.flatMap fun s => match s with
+    | .bin o _ l r =>
+      (match Impl.eval G l, Impl.eval G r with
+       | .val a, .val b =>
+         let textual := match o with
+           | .like | .hasprefix | .hassuffix => true
+           | .geq | .gt | .leq | .lt => (match a, b with | .num _, .num _ => false | _, _ => true)
+           | _ => false
+         if textual then valFloats a ++ valFloats b else []
+       | _, _ => [])
+    | _ => []
+  match floats.find? (fun x => (tb.ftext.find? (·.1 = fbits x)).isNone) with
+  | some x => some ("MISSING-FLOAT:" ++ hex16 (fbits x))
+  | none =>
+    let pairs := ss.filterMap fun s => match s with
+      | .bin .like _ l r =>
+        (match Impl.eval G l, Impl.eval G r with
+         | .val a, .val b => some (a.text G.C, b.text G.C)
+         | _, _ => none)
+      | _ => none
+    match pairs.find? (fun p => (tb.regex.find? (fun e => e.1 = p.1 ∧ e.2.1 = p.2)).isNone) with
+    | some p => some ("MISSING-REGEX:" ++ hexEnc p.1 ++ ":" ++ hexEnc p.2)
+    | none => none
+
+/-! ### one case -/
+
+def parseFText (s : String) : Option (List (Nat × Str)) :=
+  if s = "-" then some [] else
+  (s.splitOn ",").mapM fun e => match e.splitOn ":" with
+    | [b, t] => do some ((← hexNat b), (← hexDecode t))
+    | _ => none
+
+def parseRegex (s : String) : Option (List (Str × Str × Option Bool)) :=
+  if s = "-" then some [] else
+  (s.splitOn ",").mapM fun e => match e.splitOn ":" with
+    | [a, b, r] => do
+      let a ← hexDecode a
+      let b ← hexDecode b
+      let r ← (match r with | "T" => some (some true) | "F" => some (some false) | "X" => some none | _ => none)
+      some (a, b, r)
+    | _ => none
+
+def canonFText (l : List (Nat × Str)) : List (Nat × Str) :=
+  l.map fun (b, t) => (fbits (Float.ofBits b.toUInt64), t)
+
+def runCase (payload : String) : String :=
+  match payload.splitOn " " with
+  | [_src, conv, toks, ftext, regex] =>
+    match (conv.splitOn ",").mapM String.toInt?, (toks.splitOn ";").mapM parseTok, parseFText ftext, parseRegex regex with
+    | some [c1, c2, c3], some ts, some ft, some rx =>
+      let tb : Tables := { convNaN := c1, convPos := c2, convNeg := c3, ftext := canonFText ft, regex := rx }
+      if ts.any (fun t => match t.tk with | .other _ => true | _ => false) then "UNSUPPORTED other-token"
+      else
+        match Impl.parse Ecal.Gen.C03.table ts with
+        | .error .fuel => "FUEL"
+        | .error .unsupported => "UNSUPPORTED parse"
+        | .error _ => "PARSEERR -"
+        | .ok e =>
+          let G := cfg tb
+          let tree := showTree e
+          match e with
+          | .bin .assign _ (.atom (.ident name)) r =>
+            if hasAssign r then "UNSUPPORTED nested-assign"
+            else match missing tb G r with
+              | some m => m
+              | none =>
+                (match Impl.eval G r with
+                 | .val v => tree ++ " A " ++ hexEnc name ++ " " ++ showVal v ++ "\tnt=1"
+                 | o => tree ++ " " ++ showOut o ++ "\tnt=1")
+          | _ =>
+            if hasAssign e then "UNSUPPORTED nested-assign"
+            else match missing tb G e with
+              | some m => m
+              | none =>
+                let nt := match e with | .atom _ => "" | _ => "\tnt=1"
+                tree ++ " " ++ showOut (Impl.eval G e) ++ nt
+    | _, _, _, _ => "bad-payload"
+  | _ => "bad-payload"
+
+/-! ### search: the documented grammar's prints of all operator pairs (independent of the table) -/
+
+def binText : BinOp → String
+  | .geq => ">=" | .leq => "<=" | .neq => "!=" | .eq => "==" | .gt => ">" | .lt => "<"
+  | .plus => "+" | .minus => "-" | .times => "*" | .div => "/" | .divint => "//" | .modint => "%"
+  | .and => "and" | .or => "or" | .like => "like" | .isin => "in" | .hasprefix => "hasprefix"
+  | .hassuffix => "hassuffix" | .notin => "notin" | .assign => ":="
+
+def preText : PreOp → String
+  | .neg => "-" | .pos => "+" | .not => "not"
+
+def tkText : TK → String
+  | .atom (.num t _) => String.fromUTF8! (ByteArray.mk (t.map (·.toUInt8)).toArray)
+  | .atom _ => "x"
+  | .lp => "(" | .rp => ")" | .lb => "[" | .rb => "]" | .comma => "," | .eof => ""
+  | .not _ => "not"
+  | .op o _ => binText o
+  | .other _ => "?"
+
+def numAtom (n : Nat) : Expr := .atom (.num (strBytes (toString n)) 0)
+
+def bin' (o : BinOp) (l r : Expr) : Expr := .bin o (strBytes (binText o)) l r
+def pre' (p : PreOp) (x : Expr) : Expr := .pre p (strBytes (preText p)) x
+
+/-- trees over all operator pairs and prefix/binary pairs -/
+def searchTrees : List Expr :=
+  (BinOp.all.flatMap fun o1 => BinOp.all.flatMap fun o2 =>
+    [bin' o2 (bin' o1 (numAtom 1) (numAtom 2)) (numAtom 3), bin' o1 (numAtom 1) (bin' o2 (numAtom 2) (numAtom 3))]) ++
+  (PreOp.all.flatMap fun p => BinOp.all.flatMap fun o =>
+    [pre' p (bin' o (numAtom 1) (numAtom 2)), bin' o (pre' p (numAtom 1)) (numAtom 2),
+     bin' o (numAtom 1) (pre' p (numAtom 2))]) ++
+  (PreOp.all.flatMap fun p => PreOp.all.map fun q => pre' p (pre' q (numAtom 1)))
+
+/-- `<source-hex> <tree>` : the minimal print of the tree per the documented grammar and the
+    tree the real parser has to build from it -/
+def specPrints : List String :=
+  searchTrees.map fun e =>
+    let src := " ".intercalate ((Spec.pr e .top .none).map tkText)
+    hexEnc (strBytes src) ++ " " ++ showTree e
+
+def run (args : List String) : IO Unit :=
+  match args with
+  | ["specprints"] => do
+    for s in specPrints do
+      IO.println s
+  | _ => lineLoop runCase
 end Ecal.Drv.C03
